@@ -262,15 +262,12 @@ AllInv == /\ Inv_C06_CostDecreases /\ Inv_C06_AtMostOneLaunch /\ Inv_C06_SpotToS
 WeakDetect == AllInv \/ PrintT(<<"REJ", wk>>)
 
 \* ---------------------------------------------------------------- scenario generation for the real code
-\* one line per scenario: the price table, the removed nodes, the remaining node, the flag, and whether the model admits
-\* some replace / delete command (diagnostic)
+\* one line per scenario: the price table, the removed nodes, the remaining node, the flag
 GenScenario == [base |-> [i \in TypeIdx |-> [spot |-> sc.base[i][Spot], od |-> sc.base[i][OnDemand]]],
                 zmod |-> [spot |-> sc.zmod[Spot], od |-> sc.zmod[OnDemand]],
                 cands |-> [i \in DOMAIN sc.cands |-> [t |-> sc.cands[i].t, ct |-> sc.cands[i].ct, z |-> sc.cands[i].z, pod |-> sc.cands[i].pod,
                                                       needOd |-> sc.cands[i].needOd, costly |-> sc.cands[i].costly]],
-                rest |-> sc.rest, flag |-> sc.flag,
-                replace |-> \E c \in Commands(sc) : c.nrepl = 1 /\ Admit(sc, c),
-                delete |-> \E c \in Commands(sc) : c.nrepl = 0 /\ c.method # "emptiness" /\ Admit(sc, c)]
+                rest |-> sc.rest, flag |-> sc.flag]
 GenPrint == phase # "setup" \/ PrintT(<<"BEH", ToJson(GenScenario)>>)
 \* generation only needs the initial states; a slice of the grid is selected by a hash of the scenario
 ZIdx(m) == CASE m = "same" -> 0 [] m = "dear" -> 1 [] m = "unavail" -> 2 [] OTHER -> 3
